@@ -1774,6 +1774,13 @@ def make_builtins(interp):
                 if 'default' in kw:
                     return kw['default']
                 raise PyRaise('ValueError', 'min()/max() arg is an empty sequence', interp.where)
+            if key is None and any(isinstance(i, sym.FPV) for i in items):
+                # IEEE doubles: python's min/max keep the first argument unless a later one compares strictly smaller/larger
+                r = items[0]
+                for x in items[1:]:
+                    x = sym.FPV.of(x)
+                    r = sym.fp_ite((x < r) if op is sym.vmin else (x > r), x, sym.FPV.of(r))
+                return r
             if key is not None or not all(_is_scalar(sym._generic(i)) for i in items):
                 return (max if op is sym.vmax else min)(items, key=key) if key else (max if op is sym.vmax else min)(items)
             r = items[0]
